@@ -237,3 +237,62 @@ Proof.
   rd4. rewrite dec32_cons by lia.
   rewrite !m31_small by lia. reflexivity.
 Qed.
+
+(* ---------- length fields: flags<<24 | length does not wrap below 2^24 ---------- *)
+Lemma lor_flags_len flags len : 0 <= flags -> 0 <= len < 2^24 -> Z.lor (flags * 2^24) len = flags * 2^24 + len.
+Proof.
+  intros Hf Hl.
+  assert (Hland : Z.land (flags * 2^24) len = 0).
+  { apply Z.bits_inj'. intros n Hn. rewrite Z.land_spec, Z.bits_0.
+    destruct (Z.ltb_spec n 24) as [Hlt|Hge].
+    - rewrite Z.mul_pow2_bits_low by lia. reflexivity.
+    - replace len with (len mod 2^24) by (apply Z.mod_small; lia).
+      rewrite Z.mod_pow2_bits_high by lia. apply andb_false_r. }
+  rewrite <- Z.lxor_lor by exact Hland. symmetry. apply Z.add_nocarry_lxor. exact Hland.
+Qed.
+Lemma lenword_exact flags len :
+  0 <= flags < 256 -> 0 <= len < 2^24 ->
+  lenword flags len = flags * 2^24 + len /\ lenword flags len / 2^24 = flags /\ lenword flags len mod 2^24 = len.
+Proof.
+  intros Hf Hl. unfold lenword. rewrite lor_flags_len by lia.
+  assert (Hu : u32 (flags * 2^24 + len) = flags * 2^24 + len).
+  { unfold u32. apply Z.mod_small. change (2^24) with 16777216 in *. change (2^32) with 4294967296. lia. }
+  rewrite Hu. split; [reflexivity|]. change (2^24) with 16777216 in *. split.
+  - rewrite Z.add_comm, Z.div_add by lia. rewrite Z.div_small by lia. reflexivity.
+  - rewrite Z.add_comm, Z.mod_add by lia. apply Z.mod_small. lia.
+Qed.
+(* writeDataFrame: an accepted frame has len <= 2^24 - 1 and its header carries exactly (stream id, flags, len) *)
+Lemma data_header_exact sid flags len h :
+  0 <= flags < 256 -> 0 <= len -> data_header sid flags len = inr h ->
+  len <= 2^24 - 1 /\ h = be32 sid ++ be32 (flags * 2^24 + len) /\
+  (flags * 2^24 + len) / 2^24 = flags /\ (flags * 2^24 + len) mod 2^24 = len.
+Proof.
+  intros Hf Hl. unfold data_header.
+  destruct (sid =? 0); [discriminate|].
+  destruct (2^31 <=? sid); [discriminate|]. cbn [orb].
+  destruct (2^24 - 1 <? len) eqn:E; [discriminate|]. apply Z.ltb_ge in E.
+  intros H. inversion H; subst. clear H.
+  destruct (lenword_exact flags len Hf ltac:(lia)) as (H1 & H2 & H3).
+  rewrite H1 in *. repeat split; try assumption.
+Qed.
+(* ... and a longer payload is refused (InvalidDataFrame), nothing is written *)
+Lemma data_header_rejects sid flags len :
+  2^24 - 1 < len -> exists c, data_header sid flags len = inl c.
+Proof.
+  intros H. unfold data_header. destruct (sid =? 0); [eexists; reflexivity|].
+  apply Z.ltb_lt in H. rewrite H, orb_true_r. eexists. reflexivity.
+Qed.
+Lemma write_data_frame_exact sid flags data b :
+  0 <= flags < 256 -> write_frame (FData sid flags data) = (b, None) -> b <> [] ->
+  blen data <= 2^24 - 1 /\ b = be32 sid ++ be32 (flags * 2^24 + blen data) ++ data.
+Proof.
+  intros Hf Hw Hb. unfold write_frame in Hw.
+  destruct (data_header sid flags (blen data)) as [c|h] eqn:E.
+  - inversion Hw; subst. contradiction.
+  - inversion Hw; subst. destruct (data_header_exact sid flags (blen data) h Hf (blen_range data) E) as (H1 & H2 & _).
+    split; [exact H1|]. rewrite H2, <- app_assoc. reflexivity.
+Qed.
+(* control frames: no writer checks the 24-bit field; beyond the bound the length runs into the flags *)
+Lemma control_length_wraps : lenword 0 (2^24) / 2^24 = 1 /\ lenword 0 (2^24) mod 2^24 = 0
+  /\ lenword 0 (u32 (2097152 * 8 + 4)) / 2^24 = 1.
+Proof. vm_compute. repeat split; reflexivity. Qed.
